@@ -5,6 +5,7 @@ import (
 	"harness/flags"
 	"harness/order"
 	"harness/sim"
+	"harness/unpack"
 	"harness/varexp"
 	"harness/world"
 )
@@ -27,6 +28,8 @@ func Lookup(prop string) Engine {
 	switch prop {
 	case "C19":
 		return func(r *sim.R) { flags.Run(r, steps(r, 8, 14)) }
+	case "C13", "C14", "C04":
+		return func(r *sim.R) { unpack.Run(r, prop) }
 	case "C09":
 		return func(r *sim.R) { order.Run(r, steps(r, 6, 24)) }
 	case "C02", "C08":
